@@ -445,3 +445,68 @@ Proof.
   intros c. unfold E7_digests. destruct (lookup c "_sd") as [sd|]; [|reflexivity].
   pose proof (string_array_total sd) as H. destruct (string_array sd); cbn in *; auto.
 Qed.
+
+(* ---------- E10 ---------- *)
+Lemma base_only_safe : forall l want stage, safe (base_only Fixed l want stage).
+Proof.
+  intros l want stage. unfold base_only. destruct l as [|x r]; [exact I|].
+  cbn [guard andthen]. apply safe_andthen'; [apply safe_check|].
+  apply idx_safe; [cbn; lia|]. intros; apply safe_check.
+Qed.
+
+Lemma decode_type_safe : forall t k, (forall l, safe (k l)) -> safe (decode_type t k).
+Proof.
+  intros t k Hk. unfold decode_type. destruct t as [[]|]; try exact I; [apply Hk|].
+  destruct (all_strings _); [apply Hk|exact I].
+Qed.
+
+Lemma decode_context_safe : forall c k, (forall l, safe (k l)) -> safe (decode_context c k).
+Proof. intros c k Hk. unfold decode_context. destruct c as [[]|]; try exact I; apply Hk. Qed.
+
+Lemma E10_safe : forall m t c, safe (E10 Fixed m t c).
+Proof.
+  intros m t c. unfold E10. apply decode_type_safe. intros types. apply decode_context_safe. intros ctxs.
+  destruct m; [|exact I]. apply safe_andthen'; apply base_only_safe.
+Qed.
+
+(* the guard added by the repair excludes exactly the inputs on which the code as found panics *)
+Lemma base_only_guard_exact : forall l want stage,
+  g_is_panic (base_only AsIs l want stage) = true <-> l = [].
+Proof.
+  intros l want stage. split.
+  - destruct l as [|x r]; [reflexivity|]. unfold base_only. cbn [guard andthen].
+    destruct (1 <? List.length (x :: r))%nat; cbn; [discriminate|].
+    destruct (negb (String.eqb x want)); cbn; discriminate.
+  - intros ->. reflexivity.
+Qed.
+Lemma base_only_same_elsewhere : forall l want stage, l <> [] ->
+  base_only AsIs l want stage = base_only Fixed l want stage.
+Proof. intros [|x r] want stage H; [congruence|reflexivity]. Qed.
+
+(* ---------- E11 ---------- *)
+Lemma split_on_nonempty : forall c s cur, (1 <= List.length (split_on c s cur))%nat.
+Proof.
+  intros c s. induction s as [|a r IH]; intros cur; cbn; [lia|].
+  destruct (Ascii.eqb a c); cbn; [lia|apply IH].
+Qed.
+
+Lemma check_typ_safe : forall t, safe (check_typ t).
+Proof.
+  intros []; try exact I. cbn [check_typ]. cbv zeta.
+  destruct (1 <? List.length (split_on "+"%char s EmptyString))%nat eqn:E; [|apply safe_check].
+  apply Nat.ltb_lt in E. apply idx_safe; [lia|]. intros; apply safe_check.
+Qed.
+
+Lemma check_headers_safe : forall h, safe (check_headers h).
+Proof.
+  intros h. unfold check_headers. apply safe_andthen'; [apply safe_check|].
+  apply safe_andthen'; [|apply safe_check].
+  destruct (lookup h "typ"); [apply check_typ_safe|exact I].
+Qed.
+
+Lemma E11_safe : forall i p, safe (E11 Fixed i p).
+Proof.
+  intros i p. unfold E11. apply safe_andthen'; [apply safe_check|].
+  apply safe_andthen'; [apply E4_safe|]. apply safe_andthen'; [|apply safe_lib].
+  destruct (e4_hdr i); [apply check_headers_safe|exact I].
+Qed.
